@@ -112,7 +112,7 @@ def _calc_directed_hausdorff_nodes(
         dist = np.inf
         while que:
             d, node_id = heapq.heappop(que)
-            if d > dist:
+            if DECISION_ub_prune(d > dist):
                 continue
             if 8 * node_id + 1 < len(node_xyzw_B):
                 for r in range(8):
@@ -120,7 +120,7 @@ def _calc_directed_hausdorff_nodes(
                     if idx_B[to + 1] - idx_B[to] == 0:
                         continue
                     d = possible_dist_max_node(i, to)
-                    if d < dist:
+                    if DECISION_ub_push(d < dist):
                         heapq.heappush(que, (d, to))
                 continue
             dist = min(dist, possible_dist_max_node(i, node_id))
@@ -142,7 +142,7 @@ def _calc_directed_hausdorff_nodes(
 
         while que:
             d, node_id = heapq.heappop(que)
-            if d > dist:
+            if DECISION_nn_prune(d > dist):
                 continue
 
             if 8 * node_id + 1 < len(node_xyzw_B):
@@ -151,7 +151,7 @@ def _calc_directed_hausdorff_nodes(
                     if idx_B[to + 1] - idx_B[to] == 0:
                         continue
                     lo, hi = possible_dist_range(to, x, y, z)
-                    if hi <= HD:
+                    if DECISION_nn_short(hi <= HD):
                         return 0.0
                     heapq.heappush(que, (lo, to))
                 continue
@@ -165,7 +165,7 @@ def _calc_directed_hausdorff_nodes(
     while que:
         WEB_key, i = heapq.heappop(que)
         dist_upper = -WEB_key
-        if dist_upper <= HD:
+        if DECISION_loop_break(dist_upper <= HD):
             break
         for point_id in node_pt_A[idx_A[i]:idx_A[i + 1], 1]:
             x, y, z = points_A[point_id]
@@ -470,7 +470,7 @@ class Matcher:
                 self.node(t.args[0], a.values[0])
                 self.node(t.args[1], a.values[1])
                 return
-            if key in ('kth', 'bound', 'leaf'):
+            if key not in ('join', 'upd') and isinstance(inner, ast.Compare):
                 if not (isinstance(a, ast.Compare) and len(a.ops) == 1 and type(a.ops[0]) in CMP_NAMES):
                     self.err(a, 'expected a single comparison')
                 self.decisions[key + '_cmp'] = CMP_NAMES[type(a.ops[0])]
@@ -1095,6 +1095,11 @@ def find_def(tree, name):
     raise TranslateError(f'{name} not found')
 
 
+HD_KEYS = ['ub_prune', 'ub_push', 'nn_prune', 'nn_short', 'loop_break']
+BASELINE_HCFG = {'ub_prune': 'Gt', 'ub_push': 'Lt', 'nn_prune': 'Gt', 'nn_short': 'Le',
+                 'loop_break': 'Le'}                           # = hcfg_code of coq/C16/ModelHdCfg.v
+LAST_HCFG = [None]      # decision points of the Hausdorff kernel read by the last translate_each
+
 BASELINE_CFG = {'kth_cmp': 'Gt', 'bound_cmp': 'Gt', 'join_or': True, 'skip_empty': True,
                 'leaf_cmp': 'Gt', 'leaf_upd': 'PushPop'}     # = cfg_code of coq/C16/Model.v
 
@@ -1128,6 +1133,12 @@ def match_one(fname, tdef, adef):
             if kx not in d:
                 raise TranslateError(f'{fname}: decision point {kx} not found')
         return {kx: d[kx] for kx in need}
+    if fname == '_calc_directed_hausdorff_nodes':
+        d = m.decisions
+        for kx in HD_KEYS:
+            if kx + '_cmp' not in d:
+                raise TranslateError(f'{fname}: decision point {kx} not found')
+        return {kx: d[kx + '_cmp'] for kx in HD_KEYS}
     return None
 
 
@@ -1141,6 +1152,7 @@ def translate_each(repo):
     tree = ast.parse(src)
     consts = module_constants(tree)
     consumed, status, cfg = {}, {}, None
+    LAST_HCFG[0] = None
     for fname, tsrc in TEMPLATES.items():
         tdef = ast.parse(textwrap.dedent(tsrc)).body[0]
         try:
@@ -1176,6 +1188,8 @@ def translate_each(repo):
                 continue
         if fname == '_nns_from_nodes_to_nodes':
             cfg = c
+        if fname == '_calc_directed_hausdorff_nodes':
+            LAST_HCFG[0] = c
     return cfg, consumed, status
 
 
@@ -1200,9 +1214,22 @@ def emit(cfg):
         ''])
 
 
+def emit_hd(h):
+    return '\n'.join([
+        '(* GENERATED by translate/c16_loops.py from femio/graph_processor.py -- do not edit.',
+        '   Decision points of _calc_directed_hausdorff_nodes (calc_frm_node, calc_frm, main loop). *)',
+        'From FV.C16 Require Import Model ModelHdCfg.',
+        '',
+        'Definition gen_hcfg : hcfg :=',
+        f'  {{| ub_prune := {h["ub_prune"]}; ub_push := {h["ub_push"]}; nn_prune := {h["nn_prune"]};',
+        f'     nn_short := {h["nn_short"]}; loop_break := {h["loop_break"]} |}}.',
+        ''])
+
+
 if __name__ == '__main__':
     import sys
     cfg, consumed, status = translate_each(sys.argv[1] if len(sys.argv) > 1 else '/repo')
     for f, st in status.items():
         print(f'(* {f}: {st} *)')
     print(emit(cfg or BASELINE_CFG))
+    print(emit_hd(LAST_HCFG[0] or BASELINE_HCFG))
